@@ -48,7 +48,7 @@ def lean_type(t) -> str:
     if isinstance(t, tuple) and t[0] == "T":
         return "(" + " × ".join(lean_type(x) for x in t[1:]) + ")"
     if isinstance(t, tuple) and t[0] == "R":
-        return f"{t[1]} X C α" if t[1] in ("Bij", "Chain", "Invert") else (f"{t[1]} C α" if t[1] in ("AdditiveCondition",) else f"{t[1]} α")
+        return f"{t[1]} X C α" if t[1] in ("Bij", "Chain", "Invert") else (f"{'Distn' if t[1] == 'Dist' else t[1]} X C K α" if t[1] in ("Dist", "Transformed", "DistCore") else None) or (f"{t[1]} C α" if t[1] in ("AdditiveCondition",) else f"{t[1]} α")
     if isinstance(t, tuple) and t[0] == "F":
         return "(" + " → ".join(lean_type(x) for x in t[1:]) + ")"
     if isinstance(t, tuple) and t[0] == "L":  # list of something
@@ -181,6 +181,12 @@ BIJ_METHODS = {
     "inverse": ("inv", "X"),
     "transform_and_log_det": ("fwdLd", ("T", "X", "S")),
     "inverse_and_log_det": ("invLd", ("T", "X", "S")),
+}
+
+DIST_METHODS = {
+    "_log_prob": ("logProb", "S"),
+    "_sample": ("sample", "X"),
+    "_sample_and_log_prob": ("sampleLp", ("T", "X", "S")),
 }
 
 LIB = {
@@ -466,6 +472,17 @@ class Tr:
                 fld, rt = BIJ_METHODS[n.func.attr]
                 if len(n.args) != 2 or n.keywords:
                     raise Untranslatable(f"child call {fn}: expected (x, condition)")
+                argc = [self.es(a)[0] for a in n.args]
+                return "(" + " ".join([f"{base}.{fld}"] + argc) + ")", rt
+        if isinstance(n.func, ast.Attribute) and n.func.attr in DIST_METHODS:
+            try:
+                base, bt = self._e(n.func.value)
+            except Untranslatable:
+                base, bt = None, None
+            if bt == R("Dist"):
+                fld, rt = DIST_METHODS[n.func.attr]
+                if len(n.args) != 2 or n.keywords:
+                    raise Untranslatable(f"child call {fn}: expected two arguments")
                 argc = [self.es(a)[0] for a in n.args]
                 return "(" + " ".join([f"{base}.{fld}"] + argc) + ")", rt
         # call of a function-typed variable (closure parameter)
